@@ -26,6 +26,9 @@ RULE = (
     "body not run and that invariant's error; never an evaluation while the object is under construction or around exempt "
     "members. Non-trivial = operation on a class with at least one invariant; distinct = (class shape, flavour, invariant "
     "layout, operation, truth sequence)."
+    ' Fixed scenarios: factory / nested / sibling __new__ (an object of the same class built inside __new__ is chec'
+    'ked on its own), special methods bound to functions defined under another name (the event they stand for selec'
+    'ts the invariants).'
 )
 ASSUMPTIONS = [
     "C-level slot wrappers inherited from object, evaluation after a body that raised, construction paths bypassing the "
